@@ -5,15 +5,17 @@
     Spec.Variants   position-wise semantics of edits: `piece`, `image ref es lo hi` (edited image of a reference
                     range), `altOf` (literal substitution of every edit), `newPos`/`imageBlock` (where a position /
                     a block sits on the haplotype), verdict functions `okAltSeq`, `okLift`, `okIncorporate`, `okVcf`
-    Model.Variants  mirror of gene/variants.py; its single-interval kernel IS the definition generated from the
+    Model.Variants  mirror of gene/variants.py (`Ver.current` = the code as it is; `Ver.before` = the text before the
+                    repairs of F-C13b/F-C13c, regression facts only; `Ver.descending` = hypothetical repair of the open
+                    finding F-C13a); its single-interval kernel IS the definition generated from the
                     source on every run, and the T2 theorems are stated about that generated definition (`liftK`)
   Coordinates in T1/T3 are those of the parent's own sequence (`off` = chunk start; 0 for a chromosome).
 -/
 import BioCantor.Proofs.VarLift
 namespace BioCantor.Props.C13
 open BioCantor BioCantor.GenP BioCantor.Spec.Variants BioCantor.Proofs.Var
-open BioCantor.Model.Variants (Var altSeq1 altSeqN kernel liftBlocks liftSingle lift1 liftN liftSeqSingle slice Par
-  vcfDicts)
+open BioCantor.Model.Variants (Var altSeq1 altSeqN kernel liftBlocks liftSingle lift1 liftN liftSeqSingleStop slice Par
+  vcfDicts Ver convertVcf)
 
 /-! ### T1 — alternative sequence = literal substitution -/
 
@@ -102,15 +104,23 @@ theorem lift_blocks_partial (ref : Seq) (v : Var) (st : Strand) (bs : List Blk) 
         = bs.flatMap fun b => image ref [toEdit 0 v] b.1 b.2 :=
   ⟨liftBlocks_clean ref v st bs hv hvn hc, lifted_blocks_read_image ref v bs hv hvn hc⟩
 
-/-- T3b (`VariantInterval.lift_over_location`, single-block location, whole chromosome): the image block; AS CODED an
-    exception when nothing remains (F-C13b — the property wants the EmptyLocation). -/
+/-- T3b (`VariantInterval.lift_over_location` AS IT IS, single-block location, whole chromosome): the image block,
+    and the EmptyLocation when no base of the block remains. -/
 theorem lift_single_block (ref : Seq) (v : Var) (b : Blk) (st : Strand) (hv : v.s < v.e) (hvn : v.e ≤ ref.length)
     (hb : b.1 < b.2) (hbn : b.2 ≤ ref.length) (hc : Clean v b) :
-    lift1 false .whole ref v (.single b st) =
+    lift1 .current .whole ref v (.single b st) =
       (match nonEmpty (imageBlock ref [toEdit 0 v] b) with
        | some ib => .ok (.single ib st)
-       | none => .error .EmptyLocation) :=
-  lift1_single_clean ref v b st hv hvn hb hbn hc
+       | none => .ok .empty) := by
+  rw [lift1_single_clean .current ref v b st hv hvn hb hbn hc]
+  cases nonEmpty (imageBlock ref [toEdit 0 v] b) <;> rfl
+
+/-- "locations deleted entirely become empty" (code as it is): a single-block location wholly inside the deleted part
+    `[s + |alt|, e)` of a length-reducing variant — padded or not — is lifted to the EmptyLocation. -/
+theorem lift_deleted_single_block (ref : Seq) (v : Var) (b : Blk) (st : Strand) (hv : v.s < v.e) (hb : b.1 < b.2)
+    (hd : v.alt.length < v.e - v.s) (h1 : v.s + v.alt.length ≤ b.1) (h2 : b.2 ≤ v.e) :
+    lift1 .current .whole ref v (.single b st) = .ok .empty :=
+  lift1_single_deleted .current rfl ref v b st hv hb hd h1 h2
 
 /-- T3b as a verdict of the specification's checker: strand, normalised blocks and the bases read all pass `okLift` -/
 theorem lift_single_block_verdict (ref : Seq) (v : Var) (b ib : Blk) (st : Strand) (hst : st ≠ .unstranded)
@@ -122,13 +132,13 @@ theorem lift_single_block_verdict (ref : Seq) (v : Var) (b ib : Blk) (st : Stran
 /-! ### T5 — collections: sequential ascending application -/
 
 /-- T5 (positive part, `_partial`): when every variant before the last keeps the length, the sequential application
-    coded in `VariantIntervalCollection.lift_over_location` equals the application of the last variant (to which T3
-    applies).  Full statement — sequential = simultaneous for EVERY sorted disjoint collection — is false for the
-    code as it is: `sequential_application_defect_witness`. -/
+    coded in `VariantIntervalCollection.lift_over_location` (the loop as it is, early exit included) equals the
+    application of the last variant (to which T3 applies).  Full statement — sequential = simultaneous for EVERY sorted
+    disjoint collection — is false for the code as it is: `sequential_application_defect_witness`. -/
 theorem sequential_ok_partial (pre : List Var) (v : Var) (b : Blk) (st : Strand) (hb : b.1 ≤ b.2)
     (hpre : ∀ u ∈ pre, (u.alt.length : Int) - ((u.e : Int) - (u.s : Int)) = 0) :
-    liftSeqSingle (pre ++ [v]) (.single b st) = liftSingle v (.single b st) :=
-  liftSeqSingle_prefix pre v b st hb hpre
+    liftSeqSingleStop (pre ++ [v]) (.single b st) = liftSingle v (.single b st) :=
+  liftSeqSingleStop_prefix pre v b st hb hpre
 
 def refW : Seq := "GCTTCCAAGGTTACGTACGTTTGACC".toList
 def v1 : Var := ⟨2, 6, ['C', 'A']⟩
@@ -138,26 +148,33 @@ def v2 : Var := ⟨13, 15, ['A', 'G', 'G']⟩
     [13,23) (it compares the block, already shifted to 13, with the second variant's reference interval); the image of
     the block is [14,23), and the specification's checker rejects the answer. -/
 theorem sequential_application_defect_witness :
-    liftN false .whole refW [v1, v2] (.single (15, 24) .plus) = .ok (.single (13, 23) .plus)
+    liftN .current .whole refW [v1, v2] (.single (15, 24) .plus) = .ok (.single (13, 23) .plus)
     ∧ imageBlock refW [toEdit 0 v1, toEdit 0 v2] (15, 24) = (14, 23)
     ∧ okLift refW [toEdit 0 v1, toEdit 0 v2] .plus [(15, 24)]
         (some (some ⟨.plus, [(13, 23)], slice (altSeqN 0 refW [v1, v2]) (13, 23)⟩)) = .fail := by
   refine ⟨by rfl, by decide, by decide⟩
 
-/-- F-C13b witness: a block inside the deleted part of an unpadded deletion; the code raises, the property wants the
-    EmptyLocation (the checker's verdict is the dedicated `failDeletedRaises`). -/
-theorem deleted_location_raises_witness :
-    lift1 false .whole refW ⟨2, 6, []⟩ (.single (3, 5) .plus) = .error .EmptyLocation
-    ∧ okLift refW [⟨2, 6, []⟩] .plus [(3, 5)] none = .failDeletedRaises
-    ∧ okLift refW [⟨2, 6, []⟩] .plus [(3, 5)] (some none) = .pass := by
-  refine ⟨by rfl, by decide, by decide⟩
+/-- the location of the former finding F-C13b (a block inside an unpadded deletion): the code as it is answers the
+    EmptyLocation, which the checker accepts; regression fact: the text before 82ac85b raised, and the checker's
+    verdict on a raise is the dedicated `failDeletedRaises`. -/
+theorem deleted_location_witness :
+    lift1 .current .whole refW ⟨2, 6, []⟩ (.single (3, 5) .plus) = .ok .empty
+    ∧ okLift refW [⟨2, 6, []⟩] .plus [(3, 5)] (some none) = .pass
+    ∧ lift1 .before .whole refW ⟨2, 6, []⟩ (.single (3, 5) .plus) = .error .EmptyLocation
+    ∧ okLift refW [⟨2, 6, []⟩] .plus [(3, 5)] none = .failDeletedRaises := by
+  refine ⟨by rfl, by decide, by rfl, by decide⟩
 
-/-- the proposed repairs (descending order; EmptyLocation returned as it is) give, on the two witnesses, the answers
-    the property demands -/
-theorem repairs_fix_witnesses :
-    liftN true .whole refW [v1, v2] (.single (15, 24) .plus) = .ok (.single (14, 23) .plus)
-    ∧ lift1 true .whole refW ⟨2, 6, []⟩ (.single (3, 5) .plus) = .ok .empty := by
+/-- a collection whose first variant deletes the location: the loop as it is stops there (before 82ac85b the next
+    variant was applied to the EmptyLocation and raised) -/
+theorem collection_deleted_location_witness :
+    liftN .current .whole refW [⟨2, 6, []⟩, v2] (.single (3, 5) .plus) = .ok .empty
+    ∧ liftN .before .whole refW [⟨2, 6, []⟩, v2] (.single (3, 5) .plus) = .error .EmptyLocation := by
   refine ⟨by rfl, by rfl⟩
+
+/-- the HYPOTHETICAL repair of the open finding F-C13a (descending order) gives, on the witness, the image block -/
+theorem descending_order_fixes_witness :
+    liftN .descending .whole refW [v1, v2] (.single (15, 24) .plus) = .ok (.single (14, 23) .plus) := by
+  rfl
 
 /-! ### T4 — VCF records: one variant per alternative allele (grouping itself: correspondence + `okVcf`) -/
 
@@ -170,6 +187,14 @@ theorem vcf_one_variant_per_alt (r : Model.Variants.VcfRec) :
   obtain ⟨a, _, rfl⟩ := hd
   exact ⟨rfl, rfl, rfl⟩
 
+/-- since c293a73 a missing PS value is read like an absent PS field: the two records of the former finding F-C13c
+    become two unphased singleton collections (before: the model had no answer — Python raised TypeError) -/
+theorem vcf_missing_ps_witness :
+    convertVcf .current [⟨['c'], 5, 6, .missing, [(['A'], ['S'])]⟩, ⟨['c'], 9, 12, .missing, [(['A'], ['D'])]⟩]
+      = some [(['c'], [⟨none, ['c'], [⟨5, 6, ['A'], ['S'], .absent⟩]⟩, ⟨none, ['c'], [⟨9, 12, ['A'], ['D'], .absent⟩]⟩])]
+    ∧ convertVcf .before [⟨['c'], 5, 6, .missing, [(['A'], ['S'])]⟩, ⟨['c'], 9, 12, .missing, [(['A'], ['D'])]⟩] = none := by
+  refine ⟨by decide, by decide⟩
+
 -- non-vacuity of the hypotheses
 example : Chain refW.length ([v1, v2].map (toEdit 0)) := by
   simp only [List.map, Chain, toEdit, v1, v2]; decide
@@ -181,7 +206,8 @@ example : CleanAll refW.length v1 [(0, 8), (10, 12), (20, 26)] := by
   simp only [List.mem_cons, List.mem_nil_iff, or_false] at hb
   rcases hb with rfl | rfl | rfl <;> decide
 example : Clean ⟨2, 6, []⟩ (2, 6) ∧ nonEmpty (imageBlock refW [toEdit 0 ⟨2, 6, []⟩] (2, 6)) = none := by decide
-example : lift1 false .whole refW v1 (.single (15, 24) .minus) = .ok (.single (13, 22) .minus) := by rfl
+example : lift1 .current .whole refW v1 (.single (15, 24) .minus) = .ok (.single (13, 22) .minus) := by rfl
+example : (2 : Nat) + ([] : Seq).length ≤ 3 ∧ (5 : Nat) ≤ 6 ∧ ([] : Seq).length < 6 - 2 := by decide
 example : okLift refW [toEdit 0 v1] .minus [(15, 24)]
     (some (some ⟨.minus, [(13, 22)], (slice (altSeq1 0 refW v1) (13, 22)).reverse.map complement⟩)) = .pass := by decide
 
